@@ -21,6 +21,7 @@ CONSTANTS
     HttpWriteDbs <- MCEmpty
     TestMethods = {}
     TestPatterns = {}
+    TestSubtrees = {}
 CONSTRAINT HW
 POSTCONDITION AcceptedDirect
 CHECK_DEADLOCK FALSE
